@@ -1,0 +1,6 @@
+//go:build !verif
+
+package importcache
+
+// verifTrace is a no-op unless built with -tags verif.
+func verifTrace(string, string) {}
